@@ -301,6 +301,14 @@ PROPS = {
             dict(name="VerifBookletAccepted", pkg=API, bounds=dict(quick=dict(M=40), thorough=dict(M=200)), opts=dict(unwind=500)),
         ],
     ),
+    "C36": dict(
+        pkg=PD,
+        explanation="the half of the property that quantifies over ALL outlines - reading terminates, also on cyclic ones - executed symbolically: BookmarksForOutlineItem / bookmarksForOutlineItem / outlineItemDict / checkBookmarkCycle / checkBookmarkRecursionDepth / outlineItemDestination / title / bookmark on an arbitrary outline graph over ITEMS items (every /Next and /First absent or a reference to any item, as solver variables: chains, trees, self references, cycles through First and/or Next, shared kids; titled or untitled; symbolic target pages). The reader must return - the unwinding bound and the call-depth limit of the engine make non-termination a violation - with ErrCircularBookmarks exactly when an item is reachable twice (compared with a reference walk), and otherwise with the titled items of each Next chain in order, target pages and PageThru as documented",
+        outside="the export -> JSON -> import -> export round trip (encoding/json reflection, whole documents), titles, colours and styles beyond their presence, PageNrFromDestination (stubbed: the destination of item k maps to a symbolic page), outlines of more than ITEMS items",
+        harnesses=[
+            dict(name="VerifBookmarkTraversal", bounds=dict(quick=dict(ITEMS=3), thorough=dict(ITEMS=4)), opts=dict(unwind=300, wall_timeout=6000)),
+        ],
+    ),
     "C39": dict(
         pkg=MO,
         explanation="Node.Add / HandleLeaf / insertIntoLeaf / updateNameTreeLimits / Node.Remove / removeFromLeaf / removeFromKids / Node.Value executed symbolically on histories of I inserts then R removals with symbolic 1-byte keys on an empty tree (maxEntries = 3: the 4th distinct key splits the leaf); the solver enumerates every feasible ordering/equality pattern of the keys; after each operation: keys strictly ascending, node limits = min/max below, lookups = reference association list",
